@@ -54,7 +54,8 @@ end
 theorem Struct.downF {s : State} (h : Struct s) {k : Nat} {pk : Packet} {v : Proc}
     (hk : s.net[k]? = some pk) (hkind : pk.kind = .down false) (hr : cls (s.procs pk.dst).st ≠ 0)
     (hv1 : cls v.st = 1) (hvS : v.accS = 0) (hvR : v.accR = 0) (hvn : v.ncl = (s.procs pk.dst).ncl) :
-    Struct (pDown s k pk.dst false v) ∧ cls (s.procs pk.dst).st = 2 := by
+    Struct (pDown s k pk.dst false v) ∧ cls (s.procs pk.dst).st = 2 ∧
+      cls (s.procs (parent pk.dst)).st = 1 ∧ 0 < pk.dst ∧ pk.dst < s.n := by
   have hmem := mem_of_getElem? hk
   have hpk := h.pk pk hmem
   unfold PkOK at hpk; rw [hkind] at hpk
@@ -112,7 +113,7 @@ theorem Struct.downF {s : State} (h : Struct s) {k : Nat} {pk : Packet} {v : Pro
     · have := (hchild q hq0 hpar hq).2.2
       simp [hq, this]
     · simp [hq]
-  refine ⟨⟨?_, ?_, ?_, ?_, ?_, ?_, ?_, ?_, ?_, ?_⟩, a2⟩
+  refine ⟨⟨?_, ?_, ?_, ?_, ?_, ?_, ?_, ?_, ?_, ?_⟩, a2, b1, h0, hme⟩
   · intro k' hk'
     simp only [pDown, setP, push, List.mem_append] at hk'
     rcases hk' with hm | hm
@@ -180,7 +181,8 @@ theorem Struct.downF {s : State} (h : Struct s) {k : Nat} {pk : Packet} {v : Pro
 theorem Struct.downT {s : State} (h : Struct s) {k : Nat} {pk : Packet} {v : Proc}
     (hk : s.net[k]? = some pk) (hkind : pk.kind = .down true)
     (hv3 : cls v.st = 3) (hvS : v.accS = (s.procs pk.dst).accS) (hvR : v.accR = (s.procs pk.dst).accR) :
-    Struct (pDown s k pk.dst true v) ∧ cls (s.procs pk.dst).st = 2 ∧ cls (s.procs 0).st = 3 := by
+    Struct (pDown s k pk.dst true v) ∧ cls (s.procs pk.dst).st = 2 ∧ cls (s.procs 0).st = 3 ∧
+      0 < pk.dst ∧ pk.dst < s.n := by
   have hmem := mem_of_getElem? hk
   have hpk := h.pk pk hmem
   unfold PkOK at hpk; rw [hkind] at hpk
@@ -219,7 +221,7 @@ theorem Struct.downT {s : State} (h : Struct s) {k : Nat} {pk : Packet} {v : Pro
     simp [e1, this] at t1; exact t1
   have hpend : ∀ q, q ≠ me → pend (pDown s k me true v) q = pend s q := by
     intro q e; unfold pend; rw [hn, hcls q e, hg, hU]
-  refine ⟨⟨?_, ?_, ?_, ?_, ?_, ?_, ?_, ?_, ?_, ?_⟩, a2, hroot⟩
+  refine ⟨⟨?_, ?_, ?_, ?_, ?_, ?_, ?_, ?_, ?_, ?_⟩, a2, hroot, h0, hme⟩
   · intro k' hk'
     simp only [pDown, setP, push, List.mem_append] at hk'
     rcases hk' with hm | hm
